@@ -90,7 +90,10 @@ def _case(draw):
     name = base + ext
     size = draw(st.one_of(st.sampled_from(SIZES), st.integers(0, 300)))
     return {"name": name, "ckind": draw(st.sampled_from(CKINDS)), "size": size, "seed": draw(st.integers(0, 10 ** 6)),
-            "inzip": draw(st.booleans()), "full": draw(st.booleans()), "sub": draw(st.booleans()),
+            "inzip": draw(st.booleans()), "full": draw(st.booleans()),
+            # at the top, one level down, or two levels down in directories with long non-ASCII names (every such byte is
+            # three characters of a URL: the request line of a URL-based protocol passes a kilobyte)
+            "sub": draw(st.sampled_from([False, False, False, True, True, "long"])),
             # the administrator's 'encoding' option in its documented "override the default entirely" form: only what it lists
             # is an encoding then
             "enc": draw(st.sampled_from([None, None, None, "minimal"]))}
@@ -376,6 +379,9 @@ def check_case(case, ctx):
     if istal:
         stored = b'<html><body><p tal:content="selector">static %d</p><i tal:condition="nothing">gone</i></body></html>\n' % case["size"]
     prefix = "sub/" if case["sub"] else ""
+    if case["sub"] == "long":
+        prefix = world.u(("\u8cc7\u6599\u5ba4" * 20).encode("utf-8")) + "/" + world.u(("\u6587\u66f8\u96c6" * 20).encode("utf-8")) + "/"
+        ctx.label("long-non-ascii-path")
     if inzip:
         spec = [[prefix + "arch.zip", "zip", {"members": [["in/" + name, "f", world.u(stored), {}],
                                                          ["other.txt", "f", "o\n", {}]]}]]
